@@ -252,6 +252,44 @@ def _reuse_chunk(firsts):
     return part
 
 
+# Every letter and digit (and a few marks) as the first and as the last character of a name, in
+# each place a name can live: a character-set operation where a prefix was meant (str.lstrip,
+# str.strip with the product name's letters) eats into some names and not into others.
+NAME_CHARS = [chr(c) for c in range(ord("A"), ord("Z") + 1)] + \
+             [chr(c) for c in range(ord("a"), ord("z") + 1)] + list("0123456789") + list("-.#+(")
+
+
+def name_alphabet_lists():
+    out = []
+    for char in NAME_CHARS:
+        for name in (char + "xq", "xq" + char, char):
+            out.append(("descr", name))
+            out.append(("ser", name))
+            out.append(("snr", name))
+    return out
+
+
+def named_ports(style, name):
+    board = {"descr": ("/dev/cu.usbmodem31", "EiBotBoard," + name, VIDPID + " LOCATION=20-9"),
+             "ser": ("COM31", "USB Serial Device (COM31)", VIDPID + " SER=" + name + " LOCATION=1-9"),
+             "snr": ("COM32", "USB Serial Device (COM32)", VIDPID + " SNR=" + name)}[style]
+    return [DESCRIPTORS[6], DESCRIPTORS[1], board]     # a foreign device, an unnamed EBB, the board
+
+
+def _names_chunk(items):
+    part = core.Part()
+    for style, name in items:
+        bad, calls = check_list(named_ports(style, name))
+        part.count("lists")
+        part.count("name_alphabet_lists")
+        part.count("nontrivial")
+        part.count("calls", calls)
+        for clause, msg, lookup in bad:
+            part.violation(f"{clause}:name:{style}:{name}:{lookup}", msg,
+                           {"kind": "named", "style": style, "name": name})
+    return part
+
+
 def _chunk(args):
     firsts, length = args
     part = core.Part()
@@ -285,6 +323,7 @@ def run(ctx):
             jobs.append((chunk, length))
     part = core.fan_out(ctx, _chunk, jobs)
     part.merge(core.fan_out(ctx, _reuse_chunk, core.split(short_lists(), 32)))
+    part.merge(core.fan_out(ctx, _names_chunk, core.split(name_alphabet_lists(), 16)))
     for clause, msg, _l in check_raising():
         part.violation(clause, msg, {"kind": "raising"})
     # long enumerations: every descriptor in turn preceded by 30 foreign ports and followed by
@@ -317,7 +356,7 @@ def run(ctx):
         "rule": f"all ordered port lists of length 0..{max_len} over {len(DESCRIPTORS)} descriptor kinds (named / "
                 "unnamed EBB, Windows SER=/SNR= styles, VID:PID-only, foreign devices, a name "
                 "that prefixes another, names and tags containing a blank) x every lookup derived from the list (reported names, "
-                "serial tags, port names; original/upper/lower case), both layers; all ordered pairs "
+                "serial tags, port names; original/upper/lower case), both layers; every letter, digit and five marks as the first / last / only character of a name held in the description, the SER= tag or the SNR= tag; all ordered pairs "
                 "of lists of length 0..2 discovered one after the other by the same EBB3 object; 16 "
                 "enumerations of 46 ports; "
                 "non-trivial = "
@@ -337,5 +376,7 @@ def replay(case):
         return check_reuse(tuple(case["first"]), tuple(case["second"]))
     if case["kind"] == "raising":
         return [m for _c, m, _l in check_raising()]
+    if case["kind"] == "named":
+        return [m for _c, m, _l in check_list(named_ports(case["style"], case["name"]))[0]]
     ports = [DESCRIPTORS[k] for k in case["combo"]]
     return [m for _c, m, _l in check_list(ports)[0]]
